@@ -50,6 +50,7 @@ def plan(tier):
     names = sorted(subproc.VARIANTS)
     for i in range(3):
         descs.append({"kind": "import_env", "variants": names[i::3]})
+    descs.append({"kind": "after_subclassing"})
     return descs
 
 
@@ -372,12 +373,12 @@ def check_instances(ctx):
         cmp.eq(mt.cls_name, "option_values_keys", sorted(inst.option_values), sorted(o.name for o in mt.options))
 
 
-def fingerprint():
+def fingerprint(items=None):
     """Cheap digest of everything check_registered compares (class-level metadata only)."""
     import rv.modules as m
 
     out = []
-    for mtype, cls in sorted(m.MODULE_CLASSES.items()):
+    for mtype, cls in (sorted(m.MODULE_CLASSES.items()) if items is None else items):
         ctls = []
         for name, c in cls.controllers.items():
             vt = c.value_type
@@ -488,6 +489,43 @@ def run_after_use(ctx, desc):
     run_property(ctx, strat, body2, desc["examples"], tag="after_use_files", bucket="after_use")
 
 
+def run_after_subclassing(ctx):
+    """A program derives its own module classes from the stock ones - with nothing added, with a controller of its
+    own in the class body, with a controller-bearing mix-in listed before and listed after the stock class.  The
+    stock classes' metadata stays what the specification says, and every derived class keeps the specified
+    controllers first, in order, with their numbers (the n-th stored value is the n-th specified controller's)."""
+    import rv.modules as m
+    from rv.controller import Controller
+
+    stock = sorted(m.MODULE_CLASSES.items())
+    fp0 = fingerprint(stock)
+    for mtype, cls in stock:
+        if cls.__name__ == "Output":
+            continue
+        spec_names = [(n, c.number) for n, c in cls.controllers.items()]
+        for variant in ("plain", "body", "mixin_before", "mixin_after"):
+            ctx.case()
+            rec = {"op": "after_subclassing", "class": cls.__name__, "variant": variant}
+            mix = type("Metered", (), {"meter_gain": Controller((0, 256), 128)})
+            if variant == "plain":
+                sub = type("My" + cls.__name__, (cls,), {})
+            elif variant == "body":
+                sub = type("My" + cls.__name__, (cls,), {"meter_gain": Controller((0, 256), 128)})
+            elif variant == "mixin_before":
+                sub = type("My" + cls.__name__, (mix, cls), {})
+            else:
+                sub = type("My" + cls.__name__, (cls, mix), {})
+            got = [(n, c.number) for n, c in sub.controllers.items()][: len(spec_names)]
+            ctx.check(got == spec_names, "C13.after_subclassing.derived_order", "%s derived from %s (%s): its first controllers are %r, the specified ones are %r" % (sub.__name__, cls.__name__, variant, got[:4], spec_names[:4]), key="C13.after_subclassing.derived_order:" + variant, recipe=rec)
+            if fingerprint(stock) != fp0:
+                now = [(n, c.number) for n, c in cls.controllers.items()]
+                ctx.check(False, "C13.after_subclassing.stock_changed", "deriving a class from %s (%s) changed the stock classes' metadata; %s controllers now %r" % (cls.__name__, variant, cls.__name__, now[:4]), key="C13.after_subclassing.stock_changed:" + variant, recipe=rec)
+                return
+            ctx.mark_nontrivial(rec)
+    ctx.label("after_subclassing")
+    ctx.sample({"op": "after_subclassing", "classes": len(stock) - 1, "variants": 4})
+
+
 def run_import_env(ctx, desc):
     """The class metadata is built while the library is imported: it must come out the same however
     the interpreter was started and whatever the program did before the import."""
@@ -513,6 +551,9 @@ def run_import_env(ctx, desc):
 
 
 def run_shard(ctx, desc):
+    if desc.get("kind") == "after_subclassing":
+        run_after_subclassing(ctx)
+        return
     if desc.get("kind") == "import_env":
         run_import_env(ctx, desc)
         return
@@ -544,6 +585,14 @@ def replay_after_use(ctx, doc):
 def replay(ctx, doc):
     if doc["recipe"].get("tag") == "after_use":
         return replay_after_use(ctx, doc)
+    if doc["recipe"].get("op") == "after_subclassing":
+        from vlib.harness import Ctx, PropertyViolation
+
+        c2 = Ctx(ctx.prop, ctx.tier, ctx.seed, 0, 1, [])
+        run_after_subclassing(c2)
+        if c2.failures:
+            raise PropertyViolation(c2.failures[0]["sub_oracle"], c2.failures[0]["detail"], c2.failures[0]["key"])
+        return
     if doc["recipe"].get("op") == "import_env":
         from vlib.harness import Ctx, PropertyViolation
 
